@@ -512,6 +512,21 @@ func (w *Walker) evalBool(v ssa.Value, ps *pstate) Tri {
 	case *ssa.BinOp:
 		switch x.Op {
 		case token.LSS, token.LEQ, token.GTR, token.GEQ, token.EQL, token.NEQ:
+			// `case <-ch:` of a select whose channel is nil on this path never fires (a nil channel
+			// blocks for ever): `var expired <-chan time.Time; if timeout > 0 { expired = timer.C }`
+			if ex, ok := x.X.(*ssa.Extract); ok && ex.Index == 0 && (x.Op == token.EQL || x.Op == token.NEQ) {
+				if sel, ok := ex.Tuple.(*ssa.Select); ok {
+					if k, ok := x.Y.(*ssa.Const); ok && k.Value != nil && k.Value.Kind() == constant.Int {
+						if i := int(k.Int64()); i >= 0 && i < len(sel.States) {
+							if t := w.cur.tm.of(sel.States[i].Chan); t.Kind == "const" && t.Const == nil {
+								if kc, isK := t.Val.(*ssa.Const); isK && kc.Value == nil {
+									return tri(x.Op == token.NEQ)
+								}
+							}
+						}
+					}
+				}
+			}
 			if isIntType(x.X.Type()) {
 				if a, ok := w.evalInt(x.X, ps); ok {
 					if b, ok := w.evalInt(x.Y, ps); ok {
